@@ -16,6 +16,12 @@ ASSUMPTIONS = [
     "operators are non-singular with condition number < 200 per dense node (generator), sizes <= 12",
     "logabs is compared with the logarithm of the exact magnitude computed by the model: absolute tolerance 1e-9*max(1,|logabs|) for float64/complex128 trees, 2e-4 for trees containing float32/complex64 leaves; the sign of real operators is compared exactly",
     "Lanczos/Arnoldi path: max_iters >= size of every base node and the trace algorithm is deterministic (Exact(), or Auto() which selects the exact trace for these sizes); tolerance 1e-6",
+    "graded-spectrum Krylov stream (cond 1e3..1e10, tol in {default 1e-6, 1e-4, 1e-8, 1e-10}): trace(log(A, alg)) is compared (1e-9 float64 / 2e-4 float32) with the Coq model of "
+    "LanczosUnary/ArnoldiUnary._matmat (coq/C07_Unary.v: Ritz values dropped only below 10*eps*max|ritz|) on the oracle data of the same run (cola's lanczos/arnoldi factorisation, "
+    "LAPACK eigh/eig/solve, numpy log); the end-to-end comparison with log det is made only where the factorisation is expected to have converged (Lanczos: cond*tol <= 1e-3, "
+    "tolerance 1e-6 + 1e3*eps*cond*n; Arnoldi: cond*tol <= 1e-10), because both algorithms legitimately stop once the remaining spectrum is below tol*|lambda|_max",
+    "wide regime of the structural stream (payload scales 1e-8..1e8, dense nodes with cond 1e3..1e8): oracle tolerances are widened by 100*eps*cond*N (the determinant of an ill-conditioned node is only "
+    "defined to eps*cond); the model-vs-implementation comparison keeps its tolerance",
     "whether a node is annotated PSD is read from the implementation (A.isa(PSD)); a node annotated PSD whose matrix is not Hermitian positive definite is outside the quantifier (that is property C05)",
 ]
 
@@ -146,19 +152,22 @@ def gen_case(ctx, krylov, present=()):
     # Arnoldi accepts any square operator: general (indefinite, negative-determinant, complex) base nodes are generated as soon as
     # the Krylov rule no longer returns (t/|t|, |t|) (flag krylov_slogdet_abs_of_trace absent); Lanczos needs self-adjoint ones
     g = C.RGen(r, krylov=("general" if (kname == "arnoldi" and "krylov_slogdet_abs_of_trace" not in present) else krylov))
+    g.wide = wide = (not krylov) and r.random() < 0.2   # Cholesky / LU / structural rules on badly scaled and ill-conditioned data
     t = g.tree(r.choice([0, 1, 1, 2, 2, 2, 3] if ctx.tier != "thorough" else [0, 1, 2, 2, 3, 3, 4]), None, cplx, maxn=4)
     if krylov:
         name = kname
     else:
         name = r.choice(["auto", "auto", "auto", "lu", "lu", "chol"])
     trace = r.choice(["exact", "auto"])
-    return dict(recipe=t, alg=name, trace=trace, tol=(r.choice([None, None, None, 1e-8, 1e-10]) if krylov else None))
+    return dict(recipe=t, alg=name, trace=trace, tol=(r.choice([None, None, None, 1e-8, 1e-10]) if krylov else None), wide=wide)
 
 
-def tol_of(recipe, logabs):
+def tol_of(recipe, logabs, case=None):
     f32 = any(d in ("float32", "complex64") for d in C.rdts(recipe))
     base = 2e-4 if f32 else 1e-9
-    return base * max(1.0, abs(logabs)), (1e-3 if f32 else 1e-8), f32
+    # wide regime: the determinant of an ill-conditioned node is itself only defined to ~ eps * cond (the oracle works on an independently rounded matrix)
+    extra = 100 * (1.2e-7 if f32 else 2.3e-16) * case["condN"] * case["N"] if (case and case.get("wide")) else 0.0
+    return base * max(1.0, abs(logabs)) + extra, (1e-3 if f32 else 1e-8) + extra, f32
 
 
 def run_impl(case):
@@ -246,7 +255,8 @@ def run(ctx):
         if N == 0 or N > 12:
             continue
         D = C.dense(c["recipe"])
-        if np.linalg.cond(D) > (1e13 if kry == "graded" else 1e5):
+        c["condD"] = float(np.linalg.cond(D))
+        if not (c.get("wide") or c["condD"] <= (1e13 if kry == "graded" else 1e5)) or not abs(np.linalg.slogdet(D)[1]) < 600:
             continue
         o = run_impl(c)
         if "skip" in o:
@@ -261,6 +271,10 @@ def run(ctx):
             stats["skipped_oracle_hyp"] += 1
             continue
         c["N"] = N
+        nodes = C.decs(o["model"])
+        c["condN"] = max([d.get("cond", 1.0) for d in nodes] + [1.0]) * max(len(nodes), 1)
+        if c.get("wide") and not c["condN"] <= 1e10:
+            continue
         cases.append(c)
         obs.append(o)
 
@@ -271,6 +285,8 @@ def run(ctx):
     for i, (c, o) in enumerate(zip(cases, obs)):
         D = C.dense(c["recipe"])
         osign, ologabs = np.linalg.slogdet(D)
+        if c.get("wide"):   # badly scaled products: a float LU of the assembled matrix is itself unreliable; exact rational determinant instead
+            osign, ologabs = C.exact_slogdet(c["recipe"])
         real = not any(d in T.CPLX for d in C.rdts(c["recipe"]))
         kry = c["alg"] in ("lanczos", "arnoldi")
         rec = dict(oracle=(complex(osign), float(ologabs)), real=real, kry=kry)
@@ -286,7 +302,7 @@ def run(ctx):
             continue
         rec["impl_ok"] = True
         s, l = o["sign"], o["logabs"]
-        tol_l, tol_s, f32 = tol_of(c["recipe"], l.real)
+        tol_l, tol_s, f32 = tol_of(c["recipe"], l.real, c)
         if kry:
             tol_l, tol_s = max(tol_l, 1e-6 * max(1, abs(l.real))), max(tol_s, 1e-6)
         # python-level oracle comparison
@@ -377,7 +393,7 @@ def run(ctx):
                                      what="trace(log(A, alg), trace_alg) of a base node is not log det of that node (exact-trace hypothesis of the Krylov rule fails)"))
                 continue
             ts = [d["kt"] for d in kd]
-            if any(abs(t.imag) > 1e-9 * max(1, abs(t)) for t in ts) or any(t.real == 0 for t in ts):
+            if any(abs(t.imag) > 1e-10 for t in ts) or any(t.real == 0 for t in ts):
                 stats["krylov_complex_trace_skipped"] += 1
                 rec["kskip"] = True
                 if not ofail:
@@ -398,7 +414,7 @@ def run(ctx):
         if not rec.get("impl_ok"):
             continue
         os_, ol = rec["oracle"]
-        tol_l, tol_s, f32 = tol_of(c["recipe"], ol)
+        tol_l, tol_s, f32 = tol_of(c["recipe"], ol, c)
         tol_l = max(tol_l, 1e-7 * max(1, abs(ol)))   # the oracle itself is a float LU
         orc_terms.append(f"(mkcase all_fixed {COQ_ALG[c['alg']]} {C.coq_sop(o['model'])} "
                          f"{coq_obs(False, rec['real'], os_, ol, 2 * tol_l + 1e-13, max(tol_s, 1e-7))})")
@@ -471,6 +487,8 @@ def run(ctx):
         walk(c["recipe"])
     lu_odd = sum(1 for o in obs for d in (C.decs(o["model"]) if "model" in o else []) if d["which"] == "lu" and np.linalg.det(np.eye(len(d["p"]))[d["p"]]) < 0)
     lu_all = sum(1 for o in obs for d in (C.decs(o["model"]) if "model" in o else []) if d["which"] == "lu")
+    wide_cases = [c for c in cases if c.get("wide")]
+    grad_cases = [c for c in cases if c.get("graded")]
     lneg = sum(1 for r_ in info if r_["oracle"][1] < 0)
     sneg = sum(1 for r_ in info if r_["real"] and r_["oracle"][0].real < 0)
     distinct = len({core.digest(c["recipe"]) for c in cases if C.rdepth(c["recipe"]) >= 2 or c["recipe"]["k"] in ("Generic", "Perm", "Tri", "Scal")})
@@ -478,13 +496,18 @@ def run(ctx):
         evaluations=len(cases), distinct_nontrivial=distinct,
         rule="random non-singular operator trees (Product of square factors via constructor/@/scalar*, Kronecker with unequal factor sizes, BlockDiag with multiplicities, "
              "Diagonal, ScalarMul, Identity, Triangular, Permutation, dense general, dense PSD, generic kinds Sum/Transpose/Adjoint/Sliced/Tridiagonal/Householder/Sparse/KronSum/non-square Product; "
-             "real and complex, float32..complex128, dyadic-rational payloads) x (Auto, LU, Cholesky, Lanczos, Arnoldi) x (Exact, Auto trace); non-trivial = depth>=2 or a structured leaf; distinct by recipe hash",
+             "real and complex, float32..complex128, dyadic-rational payloads; 20% in a wide regime: scales 1e-8..1e8, graded dense nodes cond 1e3..1e8) x (Auto, LU, Cholesky, Lanczos, Arnoldi; "
+             "Krylov tolerances default/1e-4/1e-8/1e-10) x (Exact, Auto trace); plus a Krylov stream on graded spectra (cond 1e3..1e10, dense / Sum / G^H G + jitter I); non-trivial = depth>=2 or a structured leaf; distinct by recipe hash",
         samples=[dict(recipe=c["recipe"], alg=c["alg"], trace=c["trace"]) for c in cases[:2]],
         mismatches=mism, findings=fnd,
         extra=dict(kind_histogram=hist, alg_histogram=algh, compared_in_coq=len(idx_impl) + len(idx_k), repaired_model_vs_oracle=len(idx_orc),
                    complex_cases=sum(1 for r_ in info if not r_["real"]), logabs_negative=lneg, real_sign_negative=sneg,
                    permutation_leaves=perm_par, scalar_leaf_sizes=scal_sizes, lu_decorations=lu_all, lu_odd_pivot_permutations=lu_odd,
-                   max_size=max(c["N"] for c in cases), depth_histogram={str(d): sum(1 for c in cases if C.rdepth(c["recipe"]) == d) for d in range(1, 6)},
+                   max_size=max(c["N"] for c in cases),
+                   wide_regime_cases=len(wide_cases), wide_regime_max_node_cond=max([c["condN"] for c in wide_cases] + [0]),
+                   max_abs_logabs=max(abs(r_["oracle"][1]) for r_ in info), min_logabs=min(r_["oracle"][1] for r_ in info),
+                   graded_cond_log10_histogram={str(k): sum(1 for c in grad_cases if int(math.log10(c["graded"])) == k) for k in range(1, 11)},
+                   krylov_tol_histogram={str(t_): sum(1 for c in cases if c["alg"] in ("lanczos", "arnoldi") and c.get("tol") == t_) for t_ in (None, 1e-4, 1e-8, 1e-10)}, depth_histogram={str(d): sum(1 for c in cases if C.rdepth(c["recipe"]) == d) for d in range(1, 6)},
                    kronecker_nonsquare_factors=outside_quantifier(), **stats))
 
 
